@@ -725,4 +725,58 @@ example : extrudeScalar [⟨0, 0, 0⟩, ⟨1, 0, 0⟩, ⟨1, 1, 0⟩, ⟨0, 1, 0
     [⟨0, 0, 0⟩, ⟨1, 0, 0⟩, ⟨1, 1, 0⟩, ⟨0, 1, 0⟩, ⟨0, 0, 1/2⟩, ⟨1, 0, 1/2⟩, ⟨1, 1, 1/2⟩, ⟨0, 1, 1/2⟩] ∧
     (32 : Rat) * 32 = V3.norm2 (normalOf [⟨0, 0, 0⟩, ⟨1, 0, 0⟩, ⟨1, 1, 0⟩, ⟨0, 1, 0⟩]) := by decide +kernel
 
+/-! ### a third surface on a projected edge -/
+
+theorem length_insertSorted_not_mem (l : String) : ∀ ls : List String, l ∉ ls → (insertSorted l ls).length = ls.length + 1 := by
+  intro ls
+  induction ls with
+  | nil => intro _; rfl
+  | cons x xs ih =>
+    intro hn
+    have hx : l ≠ x := fun h => hn (by simp [h])
+    have hxs : l ∉ xs := fun h => hn (by simp [h])
+    unfold insertSorted
+    split
+    · simp
+    · simp only [hx, if_false, List.length_cons, ih hxs]
+
+theorem length_insertSorted_bounds (l : String) : ∀ ls : List String,
+    1 ≤ (insertSorted l ls).length ∧ (insertSorted l ls).length ≤ ls.length + 1 := by
+  intro ls
+  induction ls with
+  | nil => simp [insertSorted]
+  | cons x xs ih =>
+    unfold insertSorted
+    split
+    · simp
+    · split
+      · simp
+      · simp only [List.length_cons]; omega
+
+/-- **`Project.add_label` / `check_length`**: an edge slot that already holds two surfaces refuses every further surface
+    that is not one of the two (`EdgeCreationError`: blockMesh projects an edge to one surface or to the intersection of two),
+    and a slot holding at most one surface accepts any label — for every operation state, slot and label; so
+    `project_edge` / `project_side(edges=True)` either leave at most two labels on every edge or are refused -/
+theorem T_C10_third_label (o : Op) (s : Slot) (l : String) :
+    ((o.slotLabels s).length = 2 → l ∉ o.slotLabels s → o.projEdgeSlot? s l = none) ∧
+    ((o.slotLabels s).length ≤ 1 → o.projEdgeSlot? s l = some (o.projEdgeSlot s l)) := by
+  constructor
+  · intro h2 hn
+    have := length_insertSorted_not_mem l (o.slotLabels s) hn
+    simp [Op.projEdgeSlot?, labelsOk, addLabel, this, h2]
+  · intro h1
+    have := length_insertSorted_bounds l (o.slotLabels s)
+    have hok : labelsOk (addLabel (o.slotLabels s) l) = true := by
+      obtain ⟨hlo, hhi⟩ := this
+      unfold labelsOk addLabel
+      rw [Bool.and_eq_true]
+      exact ⟨decide_eq_true (by omega), decide_eq_true (by omega)⟩
+    simp [Op.projEdgeSlot?, hok]
+
+/-- non-vacuity: two surfaces on edge 0-1, a third one is refused, a repeated one is accepted -/
+example :
+    let o2 := (({} : Op).projectEdge 0 1 "g1").bind (fun o => o.projectEdge 1 0 "g2")
+    (o2.map (fun o => o.slotLabels (.bottom 0))) = some ["g1", "g2"] ∧ (o2.bind (fun o => o.projectEdge 0 1 "g3")) = none ∧
+      ((o2.bind (fun o => o.projectEdge 0 1 "g2")).map (fun o => o.slotLabels (.bottom 0))) = some ["g1", "g2"] := by decide
+
 end CBV.C10
